@@ -47,7 +47,7 @@ NAMEMAPS = [
 STORAGE = {"attr": ("int", "long", "uns", "dbl", "flt", "bool", "str"),
            "dset": ("vint", "vlong", "vuns", "vdbl", "vstr", "matd", "vecd", "rowd", "matf", "matl", "v3", "m3", "blk"),
            "group": ("l3", "esys"),
-           "table": ("tab", "tabc")}
+           "table": ("tab", "tabc", "tabr")}
 CLASS_OF = {k: c for c, ks in STORAGE.items() for k in ks}
 BIG_BYTES = 65536     # HDF5's limit for compact datasets
 
@@ -158,7 +158,7 @@ def slot_list(npaths, nnames):
 class Plan:
     """the command list of one history plus what each command's result is compared with"""
 
-    def __init__(self, hid, hist, bind, pm, nm, via, every_step, fname):
+    def __init__(self, hid, hist, bind, pm, nm, via, every_step, fname, probe=False):
         self.hid = hid
         self.hist = hist
         self.bind = bind
@@ -171,12 +171,30 @@ class Plan:
         steps = hist["h"]
         np_, nn_ = len(steps[0]["obs"]), len(steps[0]["obs"][0])
         prev = [["none"] * nn_ for _ in range(np_)]
+        # HDF5 1.10 refuses H5Awrite on a read-only file only AFTER changing its cached copy of the attribute,
+        # and every reader of this process shares that cache while the READ handle stays open.  The statement
+        # is about the file: after a refused back-door attempt only the file bytes are compared until that
+        # handle is gone; a history that ends in this state gets a final close + observation.
+        cache_tainted = False
         for si, st in enumerate(steps):
             last = si == len(steps) - 1
+            if st["a"] in ("open", "close"):
+                cache_tainted = False
+            elif st["a"] == "backdoor":
+                cache_tainted = True
             if st["a"] == "open":
                 self.add("open %s %s" % (st["s"], st["l"]), ("open", si))
+                if probe and st.get("xr"):
+                    # held for READ only: a second process must be able to open it for READ as well
+                    self.add("xprobe", ("xprobe", si))
             elif st["a"] == "close":
                 self.add("close " + st["s"], ("close", si))
+            elif st["a"] == "backdoor":
+                k, ix = bind.val(st["v"])
+                self.add("fhash", ("hash0", si))
+                self.add("backdoor %s %s %s %s %s %s %d" % (st["s"], st["door"], via, pm[st["p"]], enc(nm[st["n"]]), k, ix),
+                         ("backdoor", si))
+                self.add("fhash", ("hash1", si))
             else:
                 k, ix = bind.val(st["v"])
                 if st["ro"]:
@@ -184,7 +202,10 @@ class Plan:
                 self.add("write %s %s %s %s %s %d" % (st["s"], via, pm[st["p"]], enc(nm[st["n"]]), k, ix), ("write", si))
                 if st["ro"]:
                     self.add("fhash", ("hash1", si))
-            if every_step or last:
+            if cache_tainted and last:
+                self.add("close " + st["s"], None)
+                cache_tainted = False
+            if (every_step or last) and not cache_tainted:
                 if hid % 8 != 0:
                     # the reads of this observation share one fresh READ handle (1 history in 8: one handle per read)
                     self.add("fresh", None)
@@ -289,6 +310,18 @@ def judge(ctx, cat, plan, out, crash):
             if r0 != "ok":
                 ctx.violation("close:error", "Close failed: " + r0, rep)
                 return "viol"
+        elif what == "backdoor":
+            if not is_exc(res):
+                ctx.violation("readonly:backdoor-%s:accepted" % st["door"],
+                              "a file opened with READ was modified through %s: '%s'" % (
+                                  {"loc": "CheckpointWriter(reader.getLoc())", "handle": "CheckpointWriter(getHandle().openGroup())",
+                                   "raw": "raw HDF5 calls on getHandle()"}[st["door"]], r0), rep)
+                return "viol"
+        elif what == "xprobe":
+            if not r0.startswith("ok"):
+                ctx.violation("readonly:second-process-READ-open-refused",
+                              "while this process holds the file with READ only, another process cannot open it with READ: '%s'" % r0, rep)
+                return "viol"
         elif what == "hash0":
             plan._h0 = r0
         elif what == "hash1":
@@ -342,6 +375,8 @@ def judge(ctx, cat, plan, out, crash):
                     key = "roundtrip:%s:%s:%s" % (k, cl, "stale" if cl.startswith("overwrite") else "mismatch")
             elif st["a"] == "write":
                 key = "sibling:%s:disturbed-by:%s" % (k, bind.val(st["v"])[0]) if not st["ro"] else "readonly:content-changed"
+            elif st["a"] == "backdoor":
+                key = "readonly:content-changed"
             elif st["a"] == "open":
                 key = "reopen:%s:%s:lost" % (st["l"], k)
             elif st["a"] == "close":
@@ -359,7 +394,7 @@ def judge(ctx, cat, plan, out, crash):
 
 
 def kind_is_sized(k):
-    return k in ("vint", "vlong", "vuns", "vdbl", "vstr", "l3", "tab", "tabc", "vecd", "str")
+    return k in ("vint", "vlong", "vuns", "vdbl", "vstr", "l3", "tab", "tabc", "tabr", "vecd", "str")
 
 
 def size_relation(k, so, sn):
@@ -440,7 +475,7 @@ class Repeat:
         return self.base[n % len(self.base)]
 
 
-def replay(ctx, cat, exe, hists, tag, bind_of, every_step_of=None):
+def replay(ctx, cat, exe, hists, tag, bind_of, every_step_of=None, probe_of=None):
     """hists: list of TLC records {h: [...]}.  bind_of(n) -> Binding.  Works through the list in slices
     (the command lists of several 100k histories do not fit in memory at once) and releases the records."""
     base = os.path.join(vlib.SCRATCH, "c17-%d-%s" % (os.getpid(), tag))
@@ -458,7 +493,8 @@ def replay(ctx, cat, exe, hists, tag, bind_of, every_step_of=None):
             nm = NAMEMAPS[(n // 5) % len(NAMEMAPS)]
             via = "g" if (n // 3) % 2 == 0 else "r"
             every = True if every_step_of is None else every_step_of(n)
-            plans.append(Plan(n, hist, bind_of(n), pm, nm, via, every, "%s-%d.h5" % (base, n % NCHUNK)))
+            plans.append(Plan(n, hist, bind_of(n), pm, nm, via, every, "%s-%d.h5" % (base, n % NCHUNK),
+                              probe=bool(probe_of and probe_of(n))))
         chunks = [[] for _ in range(NCHUNK)]
         for pl in plans:
             chunks[pl.hid % NCHUNK].append(pl)
@@ -688,7 +724,7 @@ def run(ctx):
     ctx.sample({"pairs_history": hs[len(hs) // 2], "bound_to_each_of": "%d ordered value pairs" % len(A)})
 
     # ---- 2. all histories over 2 paths x 2 names x 6 ids x 3 levels ------------------------------
-    for mod, what in ([("MC2Quick", "two handles at once, depth 4"), ("MCQuickA", "depth 4")] if quick else
+    for mod, what in ([("MC2Quick", "two handles at once, depth 4"), ("MCQuickS", "depth 4, 5 ids")] if quick else
                       [("MC2Thorough", "two handles at once, depth 5"), ("MCQuickA", "depth 4"),
                        ("MCThoroughA", "depth 5"), ("MCQuickB", "depth 5, fewer ids")]):
         res = tlc(mod, "Checkpoint histories " + what)
@@ -698,6 +734,16 @@ def run(ctx):
         # observed after every call; here a quarter is observed after every call, the rest after the last one
         replay(ctx, cat, exe, res.records, mod, lambda n: Binding(cat, n + off, A, B, C),
                every_step_of=(lambda n: n % 4 == 0) if mod == "MCThoroughA" else None)
+
+    # ---- 2b. a file opened for READ is never modified: every door of a READ handle, one handle only ----
+    mod = "MCDoorsQuick" if quick else "MCDoors"
+    res = tlc(mod, "Checkpoint: back doors of a READ handle")
+    if not any(st["a"] == "backdoor" for r in res.records for st in r["h"]):
+        raise vlib.InfraError(mod + ": no back-door attempt in the histories")
+    doors = Repeat(res.records, 4 if quick else 6)
+    replay(ctx, cat, exe, doors, "doors", lambda n: Binding(cat, n * 29 + off, A, B, C),
+           probe_of=lambda n: n % 3 == 0)
+    ctx.sample({"doors_history": res.records[len(res.records) // 2]})
 
     # ---- 3. rewriting a name with another kind: must replace (strict, see Checkpoint.tla) -------
     # roles a,b,c are bound to kinds of chosen storage classes so that every ordered pair of
@@ -726,7 +772,7 @@ def run(ctx):
                 roles[role] = (k, ix[rot:] + ix[:rot])
             rolesets.append(roles)
         # compact table first, large values afterwards (in the same driver process)
-        for j in range(len(bigkinds)):
+        for j in range(min(len(bigkinds), 2 if quick else 9)):
             kb, kc = bigkinds[(j + r) % len(bigkinds)], bigkinds[(j + r + 1) % len(bigkinds)]
             tix = cat.kinds["tabc"]
             rolesets.append({"a": ("tabc", tix[(j + r) % len(tix):] + tix[:(j + r) % len(tix)]),
@@ -776,7 +822,7 @@ def run(ctx):
     ctx.extra["storage_class_pairs_rewritten"] = len(seen_pairs)
 
     # ---- 4. deeper random histories ------------------------------------------------------------
-    nsim = 25 if quick else 200
+    nsim = 15 if quick else 200
     res = tlc("MCSim", "Checkpoint simulation", simulate=nsim, depth=12, workers=4, seed=ctx.seed)
     # (half of them observed only at the end: intermediate fresh readers must not be what keeps the file right)
     if res.records:
